@@ -21,6 +21,29 @@ def seeded():
     out.append("and then ran the property's *quick* command against a patched scratch copy (`tools/mutant.sh`).")
     out.append("`seeded/<id>/` holds `patch.diff`, `demo.py` and `meta.json` (what I ran, what it needs to manifest).")
     out.append("")
+    metas = [json.load(open(x)) for x in sorted(glob.glob(os.path.join(HOME, "seeded", "*", "meta.json")))]
+    rounds = {}
+    for m in metas:
+        rnd = m["name"].split("-")[0] if "-" in m["name"] else "r1"
+        missed = "MISSED" in m.get("history", "")
+        t = rounds.setdefault(rnd, [0, 0, []])
+        t[0] += 1
+        if missed:
+            t[1] += 1
+            t[2].append(m["name"])
+    out.append("| round | changes | missed by the property's check at first evaluation | all caught now |")
+    out.append("|---|---|---|---|")
+    for rnd in sorted(rounds):
+        n, k, names = rounds[rnd]
+        now = all(any(v["exit"] == "exit=1" for v in m["checks"].values()) for m in metas
+                  if (m["name"].split("-")[0] if "-" in m["name"] else "r1") == rnd)
+        out.append("| %s | %d | %d (%s) | %s |" % (rnd, n, k, ", ".join(names) or "-", "yes" if now else "NO"))
+    out.append("")
+    out.append("Rounds: r1 asked for any change that breaks the property; r2-r4 told the sub-agent which functions the")
+    out.append("earlier rounds had already changed and asked for a different function, file, clause or kind of mistake.")
+    out.append("Every miss was answered by widening a generator or adding an oracle (never by special-casing the change);")
+    out.append("the `history` line of each entry says what was missing.")
+    out.append("")
     for meta in sorted(glob.glob(os.path.join(HOME, "seeded", "*", "meta.json"))):
         m = json.load(open(meta))
         name = m["name"]
